@@ -17,8 +17,8 @@ Representation (shared with S, so that "M = S" is an equality of values):
 
 Not modelled: `ActionUpdate` (edits: Leave(node); Enter(result)), BREAK (the traversal just stops; C14's
 `machine_eq_reference` covers where), a custom `FieldDefFn`. Nodes of kind Name / Named / List / NonNull (children
-"Name", "Alias", "Type", "TypeCondition" of the nodes below) are left out of the tree: neither `Enter` nor `Leave`
-has a case for them and they have no children of another kind, so they never touch the machine. -/
+"Name", "Alias", "Type", "TypeCondition") ARE in the walked tree (view `.other`: neither `Enter` nor `Leave` has a case for
+them, so they are shown their parent's context); S (`tiRecords`) does not list them, see `nameOrTypeKind`. -/
 namespace GqlModel.TypeInfoStacks
 open GqlModel.Validate
 
@@ -165,51 +165,77 @@ the order used, `Props/C14TypeInfo.walk_child_order_is_queryDocumentKeys` checks
 inductive TNode where
   | mk (kind : String) (loc : Loc) (view : NodeView) (children : List TNode)
 
-/-- the child keys, in order, that `docTree` follows (keys in brackets hold Name / type nodes, which are left out) -/
+/-- the child keys, in order, that `docTree` follows, for every node kind it produces -/
 def walkChildKeys : List (String × List String) := [
+  ("Name", []),
   ("Document", ["Definitions"]),
-  ("OperationDefinition", ["Name", "VariableDefinitions", "Directives", "SelectionSet"]),   -- [Name]
-  ("VariableDefinition", ["Variable", "Type", "DefaultValue"]),                             -- [Type]
-  ("Variable", ["Name"]),                                                                   -- [Name]
+  ("OperationDefinition", ["Name", "VariableDefinitions", "Directives", "SelectionSet"]),
+  ("VariableDefinition", ["Variable", "Type", "DefaultValue"]),
+  ("Variable", ["Name"]),
   ("SelectionSet", ["Selections"]),
-  ("Field", ["Alias", "Name", "Arguments", "Directives", "SelectionSet"]),                  -- [Alias, Name]
-  ("Argument", ["Name", "Value"]),                                                          -- [Name]
-  ("FragmentSpread", ["Name", "Directives"]),                                               -- [Name]
-  ("InlineFragment", ["TypeCondition", "Directives", "SelectionSet"]),                      -- [TypeCondition]
-  ("FragmentDefinition", ["Name", "TypeCondition", "Directives", "SelectionSet"]),          -- [Name, TypeCondition]
+  ("Field", ["Alias", "Name", "Arguments", "Directives", "SelectionSet"]),
+  ("Argument", ["Name", "Value"]),
+  ("FragmentSpread", ["Name", "Directives"]),
+  ("InlineFragment", ["TypeCondition", "Directives", "SelectionSet"]),
+  ("FragmentDefinition", ["Name", "TypeCondition", "Directives", "SelectionSet"]),
   ("IntValue", []), ("FloatValue", []), ("StringValue", []), ("BooleanValue", []), ("EnumValue", []),
   ("ListValue", ["Values"]),
   ("ObjectValue", ["Fields"]),
-  ("ObjectField", ["Name", "Value"]),                                                       -- [Name]
-  ("Directive", ["Name", "Arguments"])]                                                     -- [Name]
+  ("ObjectField", ["Name", "Value"]),
+  ("Directive", ["Name", "Arguments"]),
+  ("Named", ["Name"]), ("List", ["Type"]), ("NonNull", ["Type"])]
+
+/-- a `Name` node -/
+def nameTree (n : Name) : TNode := .mk "Name" n.loc .other []
+
+def optNameTrees : Option Name → List TNode
+  | none => []
+  | some n => [nameTree n]
+
+/-- a type reference: `Named{Name}` (the AST keeps one location for both), `List{Type}`, `NonNull{Type}` -/
+def typeTree : TypeRef → TNode
+  | .named _ lc => .mk "Named" lc .other [.mk "Name" lc .other []]
+  | .list t lc => .mk "List" lc .other [typeTree t]
+  | .nonNull t lc => .mk "NonNull" lc .other [typeTree t]
+
+def optTypeTrees : Option TypeRef → List TNode
+  | none => []
+  | some t => [typeTree t]
+
+/-- a `Variable{Name}` node: the inner name starts one byte after the `$` -/
+def variableTree (lc : Loc) : TNode := .mk "Variable" lc .other [.mk "Name" ⟨lc.start + 1, lc.stop⟩ .other []]
 
 mutual
 def valueTree : Value → TNode
   | .list vs lc => .mk "ListValue" lc .listValue (valuesTrees vs)
   | .obj fs lc => .mk "ObjectValue" lc .other (objFieldsTrees fs)
+  | .var _ lc => variableTree lc
   | v => .mk (valueKind v) v.loc .other []
 def valuesTrees : List Value → List TNode
   | [] => []
   | v :: vs => valueTree v :: valuesTrees vs
 def objFieldsTrees : List ObjField → List TNode
   | [] => []
-  | .mk nm v lc :: fs => .mk "ObjectField" lc (.objectField nm.value) [valueTree v] :: objFieldsTrees fs
+  | .mk nm v lc :: fs => .mk "ObjectField" lc (.objectField nm.value) [nameTree nm, valueTree v] :: objFieldsTrees fs
 end
 
-def argTree (a : Argument) : TNode := .mk "Argument" a.loc (.argument a.name.value) [valueTree a.value]
+def argTree (a : Argument) : TNode := .mk "Argument" a.loc (.argument a.name.value) [nameTree a.name, valueTree a.value]
 
-def dirTree (d : Directive) : TNode := .mk "Directive" d.loc (.directive d.name.value) (d.args.map argTree)
+def dirTree (d : Directive) : TNode := .mk "Directive" d.loc (.directive d.name.value) (nameTree d.name :: d.args.map argTree)
 
 def varDefTree (v : VarDef) : TNode :=
   .mk "VariableDefinition" v.loc (.variableDefinition v.type)
-    (.mk "Variable" v.varLoc .other [] :: (match v.default with | some dv => [valueTree dv] | none => []))
+    (.mk "Variable" v.varLoc .other [nameTree v.var] :: (optTypeTrees v.type ++
+      (match v.default with | some dv => [valueTree dv] | none => [])))
 
 mutual
 def selTree : Selection → TNode
-  | .field _ nm args dirs sel lc =>
-    .mk "Field" lc (.field nm.value) (args.map argTree ++ dirs.map dirTree ++ optSetTrees sel)
-  | .spread _ dirs lc => .mk "FragmentSpread" lc .other (dirs.map dirTree)
-  | .inline tc dirs ss lc => .mk "InlineFragment" lc (.inlineFragment tc) (dirs.map dirTree ++ [setTree ss])
+  | .field al nm args dirs sel lc =>
+    .mk "Field" lc (.field nm.value)
+      (optNameTrees al ++ nameTree nm :: (args.map argTree ++ dirs.map dirTree ++ optSetTrees sel))
+  | .spread nm dirs lc => .mk "FragmentSpread" lc .other (nameTree nm :: dirs.map dirTree)
+  | .inline tc dirs ss lc =>
+    .mk "InlineFragment" lc (.inlineFragment tc) (optTypeTrees tc ++ (dirs.map dirTree ++ [setTree ss]))
 def setTree : SelectionSet → TNode
   | .mk sels lc => .mk "SelectionSet" lc .selectionSet (selsTrees sels)
 def optSetTrees : Option SelectionSet → List TNode
@@ -227,11 +253,17 @@ def isExecDef : Definition → Bool
 /-- executable definitions in full; a type-system definition is a childless node (its children are not modelled:
 theorems about documents assume `isExecDoc`) -/
 def defTree : Definition → TNode
-  | .operation op _ vars dirs sel lc =>
-    .mk "OperationDefinition" lc (.operation op) (vars.map varDefTree ++ dirs.map dirTree ++ [setTree sel])
-  | .fragment _ tc dirs sel lc =>
-    .mk "FragmentDefinition" lc (.fragmentDefinition (some tc)) (dirs.map dirTree ++ [setTree sel])
+  | .operation op nm vars dirs sel lc =>
+    .mk "OperationDefinition" lc (.operation op)
+      (optNameTrees nm ++ (vars.map varDefTree ++ dirs.map dirTree ++ [setTree sel]))
+  | .fragment nm tc dirs sel lc =>
+    .mk "FragmentDefinition" lc (.fragmentDefinition (some tc))
+      (nameTree nm :: typeTree tc :: (dirs.map dirTree ++ [setTree sel]))
   | df => .mk "TypeSystemDefinition" df.loc .other []
+
+/-- the kinds S (`tiRecords`) does not list: Name and type-reference nodes (TypeInfo has no case for them; they are
+shown their parent's context) -/
+def nameOrTypeKind (k : String) : Bool := k == "Name" || k == "Named" || k == "List" || k == "NonNull"
 
 def docTree (d : Document) : TNode := .mk "Document" d.loc .other (d.defs.map defTree)
 
